@@ -5,7 +5,11 @@
    (The loop tests EVERY cell and the last matching one wins; the spacing hypothesis is what
    makes "the last matching cell" the right one.) *)
 From Coq Require Import List Arith Lia Bool Reals Lra.
-From OV Require Import Base.Panic Base.Arith Model.Vector Model.Mesh Proofs.MeshBase.
+From OV Require Import Base.Panic.
+From OV Require Import Base.Arith.
+From OV Require Import Model.Vector.
+From OV Require Import Model.Mesh.
+From OV Require Import Proofs.MeshBase.
 Import ListNotations.
 Local Open Scope R_scope.
 
